@@ -157,6 +157,29 @@ def run(f, fixture, rep, cfg, tier):
         tgt = {bb for _x, bb in t["targets"]}
         rep.check(vals == OPS and all(reach_from(vs, bb, blocked_blocks={char_sw[0]} if char_sw else ()) & errs for bb in tgt), "R5", "suffix|adjacency-table",
                   "an operator directly after an operator is an error", "the adjacency test covers %s" % [chr(c) for c in sorted(vals)], vs.span)
+    # "previous character" must be the previous character: the tested state is set to Some(<this iteration's char>) on every
+    # path that goes on to the next character (a stale value rejects `=p+e` or accepts `=+`)
+    if adj_sw is not None and char_sw is not None:
+        pl = op_place(adj_sw[1]["d"])
+        state = pl["l"] if pl else None
+        nexts = [c for c in vs.calls() if c.decl.endswith("Iterator::next")]
+        good_defs = set()
+        if state is not None:
+            for (dbb, idx, kind, payload, lhs_proj) in vs.defs(state):
+                if kind != "assign" or lhs_proj:
+                    continue
+                rv = payload["rv"]
+                aggs = [payload] if rv["r"] == "agg" else [lf["stmt"] for lf in vs.origins(rv["o"], passthrough={}) if lf["kind"] == "agg"] if rv["r"] == "use" else []
+                for ag in aggs:
+                    if ag["rv"].get("variant") == "Some" and ag["rv"]["ops"]:
+                        src = vs.origins(ag["rv"]["ops"][0], passthrough={})
+                        if any(x["kind"] == "call" and x["call"].decl.endswith("Iterator::next") for x in src):
+                            good_defs.add(dbb)
+        if rep.check(bool(good_defs) and len(nexts) == 1, "R5", "suffix|state-update", "the remembered character is set to the character just read",
+                     "validate_suffix never stores the character just read into the state its adjacency test reads", vs.span):
+            around = reach_from(vs, char_sw[0], blocked_blocks=good_defs)
+            rep.check(nexts[0].bb not in around, "R5", "suffix|state-update|every-path", "every accepted character becomes the remembered one before the next is read",
+                      "an accepted character can be followed by the next one without being remembered: the adjacency test then compares against a stale character", vs.span)
     vc = f.one("filecaps::validate_capset")
     tc = TermBuilder(vc)
     cont = [c for c in vc.calls() if c.decl.endswith("<impl [T]>::contains")]
